@@ -14,9 +14,21 @@
 // Memory safety is watched by ASan/UBSan: the input and every output buffer
 // are exact-size heap blocks.
 //
-// What the reference deliberately does NOT demand (statement is silent):
-// which characters a host / userinfo may contain (only invalid %XX in the
-// user info or a registered name is judged), the content of a bracketed literal,
+// "Well-formed authority" is judged where every host grammar in use (RFC 3986,
+// RFC 1123 host names, WHATWG) agrees: no blank or control byte (<= 0x20,
+// 0x7f) in the user info or host (strict/authority-blank-or-control), and
+// what stands in brackets is an IPv6 address with an optional non-empty zone,
+// or an IPvFuture literal (strict/authority-bracket-not-an-address); an
+// unreserved escape left in a registered name is canon/unreserved-escape-kept/
+// host.  What the reference deliberately does NOT demand (statement is not
+// specific enough): which other characters a registered name / userinfo / zone
+// may contain (sub-delims, stray brackets, raw bytes >= 0x80, "<>\^`{|} -
+// only invalid %XX in the user info or a registered name is judged).  For
+// these the current behaviour is pinned as a differential baseline: mode enum
+// counts them per class (stats base_*_driven / base_*_accepted, exact floors
+// on both the accepted and the rejected count), so that any drift of the
+// accepted set is inconclusive and gets looked at, without claiming a
+// violation.  Also not demanded:
 // UTF-8 validity of query/fragment, the case of kept hex digits,
 // whether %80-%FF are kept or decoded, whether "/a/." keeps its trailing
 // slash, the order of slash-collapsing vs dot-segment removal, and any
@@ -303,10 +315,24 @@ typedef struct {
 	bool        qf_utf8_ok; // decoded query and fragment are valid UTF-8
 	int         hostkind, portkind;
 	unsigned    pf;
-	// open verdicts (statement silent; counted, never flagged)
-	bool        auth_ctl; // blank / control byte in the authority
-	bool        v6_bad;   // bracketed host that is neither an IPv6 address (inet_pton) nor IPvFuture
+	bool        auth_ctl; // blank / control byte in the user info or host (judged)
+	bool        v6_bad;   // bracketed host that is neither an IPv6 address (inet_pton) + optional zone nor IPvFuture (judged)
+	bool        bracketed;
+	// open verdicts (statement not specific; baseline-pinned in mode enum, never flagged)
+	unsigned    open; // OP_* bits
+	bool        host_unres_esc; // registered name carries an escape of an unreserved character
 } ref_url;
+
+#define OP_REG_SUBDELIM 1u  // registered name with sub-delims, '_', '~' or an escape (RFC 3986 allows, DNS does not)
+#define OP_REG_BRACKET 2u   // '[' or ']' in a registered name
+#define OP_REG_HIGH 4u      // raw byte >= 0x80 in a registered name
+#define OP_REG_ASCII 8u     // other ASCII that RFC 3986 excludes from a registered name: "<>\^`{|}
+#define OP_UI_ODD 16u       // user info with anything but unreserved / escapes / sub-delims / ':'
+#define OP_ZONE_ODD 32u     // zone identifier with anything but unreserved / escapes
+#define OP_IPVFUTURE 64u    // [v1.x]
+#define N_OPEN 7
+static const char *const op_names[N_OPEN] = { "regname_subdelim_or_escape", "regname_bracket", "regname_high_byte", "regname_excluded_ascii",
+	"userinfo_odd", "zone_odd", "ipvfuture" };
 
 static uint8_t dec_tmp[NB];
 static char    tmp_a[NB], tmp_b[NB];
@@ -355,7 +381,8 @@ ref_parse(const char *in, ref_url *r)
 	r->hostkind = HK_NONE;
 	r->portkind = PK_NONE;
 	r->pf = 0;
-	r->auth_ctl = r->v6_bad = false;
+	r->auth_ctl = r->v6_bad = r->bracketed = r->host_unres_esc = false;
+	r->open = 0;
 
 	for (int i = 0; i < NSCHEMES; i++) {
 		size_t l = strlen(ref_schemes[i]);
@@ -391,9 +418,6 @@ ref_parse(const char *in, ref_url *r)
 	char        auth[MAXIN];
 	memcpy(auth, rest, alen);
 	auth[alen] = 0;
-	for (size_t i = 0; i < alen; i++) {
-		if ((unsigned char) auth[i] <= 0x20 || auth[i] == 0x7f) r->auth_ctl = true;
-	}
 
 	// userinfo
 	char *hp = auth;
@@ -417,6 +441,7 @@ ref_parse(const char *in, ref_url *r)
 			return;
 		}
 		*q = 0;
+		r->bracketed = true;
 		strcpy(r->host, hp + 1);
 		if (q[1] == ':') {
 			portstr = q + 2;
@@ -442,6 +467,14 @@ ref_parse(const char *in, ref_url *r)
 						for (i++; lit[i]; i++) {
 							if (!is_unres((unsigned char) lit[i]) && strchr("!$&'()*+,;=:", lit[i]) == NULL) ok = false;
 						}
+						if (ok) r->open |= OP_IPVFUTURE;
+					}
+				}
+				if (ok && r->host[ll] == '%') { // zone identifier
+					const char *z = r->host + ll + 1;
+					for (size_t i = 0; z[i]; i++) {
+						if (z[i] == '%' && is_hex((unsigned char) z[i + 1]) && is_hex((unsigned char) z[i + 2])) i += 2;
+						else if (!is_unres((unsigned char) z[i])) r->open |= OP_ZONE_ODD;
 					}
 				}
 			}
@@ -467,9 +500,35 @@ ref_parse(const char *in, ref_url *r)
 			r->pf |= PF_UPPER;
 		}
 	}
-	if (strlen(r->host) >= 256) {
-		rej(r, "host-too-long");
+	// "well-formed authority": no host grammar admits a blank or a control
+	// byte in the user info or host (the port text has its own rules below)
+	for (const char *c = r->userinfo; *c; c++) {
+		if ((unsigned char) *c <= 0x20 || *c == 0x7f) r->auth_ctl = true;
+	}
+	for (const char *c = r->host; *c; c++) {
+		if ((unsigned char) *c <= 0x20 || *c == 0x7f) r->auth_ctl = true;
+	}
+	if (r->auth_ctl) {
+		rej(r, "authority-blank-or-control");
 		return;
+	}
+	if (r->v6_bad) {
+		rej(r, "authority-bracket-not-an-address");
+		return;
+	}
+	// open classes (counted / baseline-pinned, never flagged)
+	if (!r->bracketed) {
+		for (const char *c = r->host; *c; c++) {
+			unsigned char b = (unsigned char) *c;
+			if (b == '[' || b == ']') r->open |= OP_REG_BRACKET;
+			else if (b >= 0x80) r->open |= OP_REG_HIGH;
+			else if (strchr("\"<>\\^`{|}", b) != NULL) r->open |= OP_REG_ASCII;
+			else if (!isalnum(b) && b != '.' && b != '-') r->open |= OP_REG_SUBDELIM;
+		}
+	}
+	for (const char *c = r->userinfo; *c; c++) {
+		unsigned char b = (unsigned char) *c;
+		if (!is_unres(b) && b != '%' && b != ':' && strchr("!$&'()*+,;=", b) == NULL) r->open |= OP_UI_ODD;
 	}
 	// "valid percent-escapes" is unqualified in the statement: a '%' in the
 	// user info or in a registered name must start %XX.  A bracketed
@@ -481,6 +540,26 @@ ref_parse(const char *in, ref_url *r)
 	}
 	if (hp[0] != '[' && !escapes_valid(r->host, strlen(r->host))) {
 		rej(r, "escape-invalid/host");
+		return;
+	}
+	if (!r->bracketed) { // canonical registered name: unreserved escapes decoded, lower case
+		size_t d = 0;
+		for (size_t i = 0; r->host[i]; i++) {
+			if (r->host[i] == '%') {
+				unsigned v = hexv((unsigned char) r->host[i + 1]) * 16 + hexv((unsigned char) r->host[i + 2]);
+				if (v < 0x80 && is_unres((unsigned char) v)) {
+					r->host[d++] = (char) tolower((int) v);
+					r->host_unres_esc = true;
+					i += 2;
+					continue;
+				}
+			}
+			r->host[d++] = r->host[i];
+		}
+		r->host[d] = 0;
+	}
+	if (strlen(r->host) >= 256) { // of the canonical name
+		rej(r, "host-too-long");
 		return;
 	}
 	if (portstr != NULL) {
@@ -722,6 +801,29 @@ rt_feature(const snap *s)
 	return "other";
 }
 
+// registered name with the escapes of unreserved characters decoded (lower case)
+static const char *
+host_decode_unres(const char *h)
+{
+	static char out[MAXIN];
+	size_t      d = 0;
+	for (size_t i = 0; h[i] && d < MAXIN - 1; i++) {
+		if (h[i] == '%' && is_hex((unsigned char) h[i + 1]) && is_hex((unsigned char) h[i + 2])) {
+			unsigned v = hexv((unsigned char) h[i + 1]) * 16 + hexv((unsigned char) h[i + 2]);
+			if (v < 0x80 && is_unres((unsigned char) v)) {
+				out[d++] = (char) tolower((int) v);
+				i += 2;
+				continue;
+			}
+		}
+		out[d++] = h[i];
+	}
+	out[d] = 0;
+	return out;
+}
+
+static long n_host_esc_judged, n_host_esc_unres;
+
 // canonical-form predicates on what nng returned (hosted schemes)
 static void
 check_canon(const nng_url *u, const char *input)
@@ -735,6 +837,25 @@ check_canon(const nng_url *u, const char *input)
 				viol("canon/host-uppercase", NULL, input, "hostname \"%s\"", esc(h));
 				break;
 			}
+		}
+		// "unreserved escapes decoded" is stated for the components; the host
+		// is one.  A bracketed literal is exempt: its raw '%' introduces the
+		// zone identifier (R.bracketed: nng has stripped the brackets).
+		if (R.accept && !R.bracketed && strchr(h, '%') != NULL) {
+			n_host_esc_judged++;
+			if (R.host_unres_esc) n_host_esc_unres++;
+			for (const char *c = h; *c; c++) {
+				if (*c == '%' && is_hex((unsigned char) c[1]) && is_hex((unsigned char) c[2])) {
+					unsigned v = hexv((unsigned char) c[1]) * 16 + hexv((unsigned char) c[2]);
+					if (v < 0x80 && is_unres((unsigned char) v)) {
+						viol("canon/unreserved-escape-kept", "host", input, "hostname \"%s\"", esc(h));
+						break;
+					}
+				}
+			}
+		} else if (R.accept && R.host_unres_esc) {
+			n_host_esc_judged++;
+			n_host_esc_unres++;
 		}
 	}
 	for (int k = 0; k < 3; k++) {
@@ -788,7 +909,8 @@ check_vs_ref(const nng_url *u, const char *input)
 	if ((ui != NULL) != R.has_userinfo || (ui != NULL && strcmp(ui, R.userinfo) != 0)) {
 		viol("component/userinfo-mismatch", NULL, input, "userinfo %s%s expected %s%s", ui ? "=" : "", ui ? esc(ui) : "NULL", R.has_userinfo ? "=" : "", R.has_userinfo ? esc(R.userinfo) : "NULL");
 	}
-	if (h == NULL || strcmp(h, R.host) != 0) {
+	// (an unreserved escape nng left in a registered name is canon/unreserved-escape-kept/host, not a mismatch)
+	if (h == NULL || strcmp(R.bracketed ? h : host_decode_unres(h), R.host) != 0) {
 		viol("component/hostname-mismatch", NULL, input, "hostname \"%s\" expected \"%s\"", h ? esc(h) : "(null)", esc(R.host));
 	}
 	if (nng_url_port(u) != R.port) {
@@ -1006,6 +1128,37 @@ check_endpoint(const nng_url *u, const char *input, uint64_t h, bool heap)
 }
 
 static const char *const hk_names[] = { "-", "empty", "name", "v4", "v6", "odd" };
+
+// Authority bookkeeping for the case just judged (R is its reference result).
+// judged_*: inputs the reference refuses for the two judged authority rules
+// (an acceptance is a strict/ violation).  base_*: the open classes among the
+// inputs the reference accepts as a whole - in mode enum (deterministic) these
+// are the differential baseline the spec pins exactly.
+static long n_judged_ctl, n_judged_v6, n_judged_v6_valid_acc, n_judged_v6_valid;
+static long n_base_driven[N_OPEN], n_base_acc[N_OPEN], n_base_rej[N_OPEN];
+
+static void
+note_authority(bool accepted)
+{
+	if (R.scheme < 0 || R.hostless) return;
+	if (!R.accept) {
+		if (!strcmp(R.reason, "authority-blank-or-control")) n_judged_ctl++;
+		if (!strcmp(R.reason, "authority-bracket-not-an-address")) n_judged_v6++;
+		return;
+	}
+	if (R.path_utf8 != U_OK || !R.qf_utf8_ok) return;
+	if (R.bracketed && !(R.open & (OP_IPVFUTURE | OP_ZONE_ODD))) { // vacuity guard: a plain IPv6 literal must be seen accepted
+		n_judged_v6_valid++;
+		if (accepted) n_judged_v6_valid_acc++;
+	}
+	for (int i = 0; i < N_OPEN; i++) {
+		if (R.open & (1u << i)) {
+			n_base_driven[i]++;
+			if (accepted) n_base_acc[i]++;
+			else n_base_rej[i]++;
+		}
+	}
+}
 static const char *const pk_names[] = { "none", "num", "svc", "bad" };
 
 // Judge one input.  wl: workload tag for classes; cdetail: extra class text
@@ -1037,15 +1190,13 @@ run_case(const char *in, const char *wl, const char *cdetail)
 			}
 			n_overstrict++;
 			// Explained: the reference is lenient where the statement is
-			// silent (odd host characters, blanks/control bytes, non-address
-			// literals, odd user info), so nng may legitimately be
-			// stricter there.  Anything else is an unexplained refusal and
+			// not specific (odd characters in a registered name, user info
+			// or zone, IPvFuture), so nng may legitimately be stricter
+			// there; in mode enum these classes are pinned exactly (base_*).
+			// Anything else is an unexplained refusal and
 			// makes the "accepts only if" verdict partly vacuous.
-			bool odd_ui = false;
-			for (const char *c = R.userinfo; R.has_userinfo && *c; c++) {
-				if (!is_unres((unsigned char) *c) && *c != ':' && *c != '%') odd_ui = true;
-			}
-			const char *ok = R.hostless ? "other" : (R.hostkind == HK_ODD || R.v6_bad) ? "odd-host" : R.auth_ctl ? "authority-blank-or-control" : odd_ui ? "odd-userinfo" : mb ? "3-4-byte-utf8" : "other";
+			const char *ok = R.hostless ? "other" : (R.open & (OP_REG_SUBDELIM | OP_REG_BRACKET | OP_REG_HIGH | OP_REG_ASCII)) ? "odd-host"
+			    : (R.open & OP_IPVFUTURE) ? "ipvfuture-literal" : (R.open & OP_ZONE_ODD) ? "odd-zone" : (R.open & OP_UI_ODD) ? "odd-userinfo" : mb ? "3-4-byte-utf8" : "other";
 			bool        unexplained = !strcmp(ok, "other") || !strcmp(ok, "3-4-byte-utf8");
 			if (unexplained) n_overstrict_unexplained++;
 			vf_stat(!strcmp(ok, "other") ? "overstrict_other" : !strcmp(ok, "3-4-byte-utf8") ? "overstrict_with_3or4_byte_utf8" : "overstrict_explained", 1);
@@ -1056,10 +1207,7 @@ run_case(const char *in, const char *wl, const char *cdetail)
 		} else {
 			vf_class("%s|rej|rv=%d|%s", wl, rv, R.accept ? (R.path_utf8 ? u_names[R.path_utf8] : "qf-utf8") : R.reason);
 		}
-		if (!R.hostless && R.scheme >= 0) {
-			if (R.auth_ctl) vf_stat("open_authority_blank_or_control_driven", 1);
-			if (R.v6_bad) vf_stat("open_bracket_literal_not_an_address_driven", 1);
-		}
+		note_authority(false);
 		free(input);
 		return false;
 	}
@@ -1071,16 +1219,7 @@ run_case(const char *in, const char *wl, const char *cdetail)
 		return true;
 	}
 	take_snap(u, &S);
-	if (R.scheme >= 0 && !R.hostless) { // open verdicts: counted, not judged
-		if (R.auth_ctl) {
-			vf_stat("open_authority_blank_or_control_driven", 1);
-			vf_stat("open_authority_blank_or_control_accepted", 1);
-		}
-		if (R.v6_bad) {
-			vf_stat("open_bracket_literal_not_an_address_driven", 1);
-			vf_stat("open_bracket_literal_not_an_address_accepted", 1);
-		}
-	}
+	note_authority(true);
 	if (!check_storage(u, input, "parse")) { // do not read strings that are not strings
 		nng_url_free(u);
 		free(input);
@@ -1271,6 +1410,16 @@ static const char *const followers_pct[4] = { "", "z", "%C3%A9", "?k" };
 static const char *const followers_raw[4] = { "", "z", "\xc3\xa9", "?k" };
 static const char *const fol_names[4] = { "end", "ascii", "seq", "query" };
 
+// Where the sequence stands (audit r2 gap 4): the validator runs after the
+// escape, slash and dot-segment passes, so the sequence is also placed right
+// behind a removed dot segment, behind a collapsed "//", across offset 128 of
+// the remainder (inline vs heap copy), in a host-less scheme (must NOT be
+// validated) and split by a kept escape (never valid).
+enum { UP_PLAIN, UP_DOTSEG, UP_DUPSLASH, UP_AT128, UP_HOSTLESS, UP_SPLIT, N_UP };
+static const char *const up_names[N_UP] = { "plain", "after-dot-segment", "after-dup-slash", "across-128", "hostless", "split-by-kept-escape" };
+static int  utf8_pos = UP_PLAIN;
+static long n_up_cases[N_UP], n_up_valid[N_UP], n_up_valid_acc[N_UP], n_up_hostless, n_up_hostless_acc;
+
 // bytes b[0..n) placed at the end of the path, percent-encoded or raw
 static void
 utf8_case(const int *b, int n, int fol, bool raw, const char *wl)
@@ -1282,16 +1431,37 @@ utf8_case(const int *b, int n, int fol, bool raw, const char *wl)
 		if (raw && b[i] == 0) return; // cannot be written raw
 		dl += snprintf(desc + dl, sizeof(desc) - (size_t) dl, "%02X", b[i]);
 	}
-	vf_case_begin(e_idx - 1, "%s %s %s follower=%s", wl, desc, raw ? "raw" : "pct", fol_names[fol]);
+	vf_case_begin(e_idx - 1, "%s %s %s follower=%s pos=%s", wl, desc, raw ? "raw" : "pct", fol_names[fol], up_names[utf8_pos]);
 	sb_init(&u);
-	sb_add(&u, "http://h/p/");
+	switch (utf8_pos) {
+	case UP_DOTSEG: sb_add(&u, "http://h/x/../"); break;
+	case UP_DUPSLASH: sb_add(&u, "http://h/a//"); break;
+	case UP_AT128: sb_add(&u, "http://h/"); sb_fill(&u, 'a', 120); sb_addc(&u, '/'); break; // 126 bytes after the scheme
+	case UP_HOSTLESS: sb_add(&u, "inproc://"); break;
+	default: sb_add(&u, "http://h/p/"); break;
+	}
 	for (int i = 0; i < n; i++) {
 		if (raw) sb_addc(&u, (char) b[i]);
 		else sb_pct(&u, (unsigned) b[i], (b[i] & 1) != 0);
+		if (i == 0 && utf8_pos == UP_SPLIT) sb_add(&u, "%2F");
 	}
 	sb_add(&u, raw ? followers_raw[fol] : followers_pct[fol]);
-	snprintf(cd, sizeof(cd), "%s|%s", raw ? "raw" : "pct", fol_names[fol]);
+	if (utf8_pos != UP_PLAIN) snprintf(cd, sizeof(cd), "%s|%s|%s", raw ? "raw" : "pct", fol_names[fol], up_names[utf8_pos]);
+	else snprintf(cd, sizeof(cd), "%s|%s", raw ? "raw" : "pct", fol_names[fol]);
 	bool acc = run_case(u.s, wl, cd);
+	if (utf8_pos != UP_PLAIN) {
+		uint8_t r4[4];
+		for (int i = 0; i < n; i++) r4[i] = (uint8_t) b[i];
+		n_up_cases[utf8_pos]++;
+		if (utf8_pos == UP_HOSTLESS) { // opaque string: whatever the bytes are
+			n_up_hostless++;
+			if (acc) n_up_hostless_acc++;
+		} else if (n >= 2 && b[0] >= 0xc2 && utf8_check(r4, (size_t) n) == U_OK && R.accept && R.path_utf8 == U_OK && R.qf_utf8_ok) {
+			n_up_valid[utf8_pos]++;
+			if (acc) n_up_valid_acc[utf8_pos]++;
+		}
+		return;
+	}
 	n_utf8_enum++;
 	// vacuity guard: a well-formed multi-byte sequence (as bytes), in an
 	// input the reference accepts as a whole, must be seen accepted -
@@ -1346,6 +1516,43 @@ enum_utf8(void)
 						if (b[2] < 0 && b[3] >= 0) continue; // same as n=2
 						utf8_case(b, n, f, false, "utf8-4");
 					}
+}
+
+// all percent-encoded byte pairs and the boundary 3/4-byte tables at the five other positions
+static void
+enum_utf8_positions(void)
+{
+	static const int bd[] = { 0x00, 0x7f, 0x80, 0x8f, 0x90, 0x9f, 0xa0, 0xbf, 0xc0 };
+	enum { NBD = 9 };
+	int b[4];
+	for (utf8_pos = UP_DOTSEG; utf8_pos < N_UP; utf8_pos++) {
+		for (b[0] = 0; b[0] < 256; b[0]++)
+			for (b[1] = 0; b[1] < 256; b[1]++)
+				if (e_take()) utf8_case(b, 2, 0, false, "utf8-pos");
+		for (b[0] = 0xc2; b[0] < 0xf5; b[0] += (b[0] == 0xc2 ? 0xdf - 0xc2 : 1)) // C2, DF, E0 .. F4 raw as well
+			for (int t = 0; t < NBD; t++)
+				for (int v = -1; v < NBD; v++)
+					for (int w = -1; w < NBD; w++) {
+						if (!e_take()) continue;
+						if (v < 0 && w >= 0) continue;
+						b[1] = bd[t];
+						b[2] = v < 0 ? 0 : bd[v];
+						b[3] = w < 0 ? 0 : bd[w];
+						utf8_case(b, v < 0 ? 2 : w < 0 ? 3 : 4, (t + v + w) & 3, true, "utf8-pos");
+					}
+		for (b[0] = 0xe0; b[0] < 256; b[0]++)
+			for (int t = 0; t < NBD; t++)
+				for (int v = 0; v < NBD; v++)
+					for (int w = -1; w < NBD; w++) {
+						if (!e_take()) continue;
+						if (w >= 0 && b[0] < 0xf0) continue; // three-byte leads: no fourth byte
+						b[1] = bd[t];
+						b[2] = bd[v];
+						b[3] = w < 0 ? 0 : bd[w];
+						utf8_case(b, w < 0 ? 3 : 4, (t + v) & 3, false, "utf8-pos");
+					}
+	}
+	utf8_pos = UP_PLAIN;
 }
 
 static void
@@ -1455,6 +1662,330 @@ enum_authority(void)
 					vf_class("auth|host%zu|port%zu|%s", h, p, acc ? "acc" : "rej");
 					vf_stat("authority_matrix", 1);
 				}
+}
+
+// Every byte value at every place of the authority (audit r2 gap 1): raw in
+// a registered name (start, middle, end), in the user info, inside a bracketed
+// literal and inside its zone identifier, and as %XX in the registered name
+// and in the user info (gap 2: unreserved escapes in the host).  This is the
+// deterministic population on which the judged authority rules must hold and
+// on which the open classes are pinned (base_* stats).
+static void
+enum_hostbytes(void)
+{
+	static const char *const schemes[] = { "tcp", "http" };
+	static const char *const ports[] = { "", ":80" };
+	static const char *const tails[] = { "", "/p?q#f" };
+	static const char *const tn[] = { "reg-mid", "reg-start", "reg-end", "userinfo", "literal", "zone", "reg-pct", "userinfo-pct" };
+	for (int t = 0; t < 8; t++)
+		for (int b = 0; b < 256; b++)
+			for (int k = 0; k < 8; k++) {
+				if (!e_take()) continue;
+				if (b == 0 && t < 6) continue; // a raw NUL ends the string
+				char a[64], x[8], full[160];
+				if (t < 6) snprintf(x, sizeof(x), "%c", b);
+				else snprintf(x, sizeof(x), (b & 1) ? "%%%02x" : "%%%02X", b);
+				switch (t) {
+				case 0: snprintf(a, sizeof(a), "A%sc", x); break;
+				case 1: snprintf(a, sizeof(a), "%sac", x); break;
+				case 2: snprintf(a, sizeof(a), "ac%s", x); break;
+				case 3: snprintf(a, sizeof(a), "u%sv@h", x); break;
+				case 4: snprintf(a, sizeof(a), "[::%s1]", x); break;
+				case 5: snprintf(a, sizeof(a), "[fe80::1%%e%s0]", x); break;
+				case 6: snprintf(a, sizeof(a), "A%sc.Example", x); break;
+				default: snprintf(a, sizeof(a), "u%sv@h", x); break;
+				}
+				snprintf(full, sizeof(full), "%s://%s%s%s", schemes[k & 1], a, ports[(k >> 1) & 1], tails[k >> 2]);
+				vf_case_begin(e_idx - 1, "hostbyte %s 0x%02x: %s", tn[t], b, esc(full));
+				bool acc = run_case(full, "hostbyte", NULL);
+				vf_class("hostbyte|%s|%s|%s|%s", tn[t], b <= 0x20 || b == 0x7f ? "blank-or-control" : b >= 0x80 ? "high" : isalnum(b) ? "alnum" : "punct",
+				    acc ? "acc" : "rej", R.accept ? "ref-ok" : R.reason);
+				vf_stat("hostbytes", 1);
+			}
+}
+
+// What may stand between brackets: a table of IPv6 address spellings on both
+// sides of the grammar (the reference asks inet_pton), zones, IPvFuture.
+static void
+enum_literals(void)
+{
+	static const char *const lits[] = { // addresses
+		"::", "::1", "1::", "1:2:3:4:5:6:7:8", "1:2:3:4:5:6:7::", "::2:3:4:5:6:7:8", "1::3:4:5:6:7:8", "1:2:3:4:5:6::8", "1:2:3::6:7:8",
+		"::ffff:1.2.3.4", "::FFFF:1.2.3.4", "1:2:3:4:5:6:1.2.3.4", "::1.2.3.4", "1::1.2.3.4", "1:2:3:4:5::1.2.3.4", "::255.255.255.255", "::0.0.0.0",
+		"64:ff9b::192.0.2.33", "fe80::1%lo", "fe80::1%25lo", "FE80::A%Eth0", "fe80::1%1", "::1%a.b-c_d~e", "abcd:ef01:2345:6789:abcd:ef01:2345:6789",
+		"ABCD:EF01:2345:6789:ABCD:EF01:2345:6789", "0:0:0:0:0:0:0:0", "::0", "1::8", "0000:0000:0000:0000:0000:0000:0000:0001", "::0001", "2001:db8::",
+		// not addresses
+		"", ":", ":::", "::::", "1", "zz", "a", "g", "1.2.3.4", "1:2", "a:b", "1:2:3:4:5:6:7", "1:2:3:4:5:6:7:8:9", "1:2:3:4:5:6:7:8::", "::1:2:3:4:5:6:7:8",
+		"1:2:3:4::5:6:7:8", "1::2::3", "::1::", "12345::", "::12345", "::00001", "g::", "::g", ":1", "1:", "1::2:", ":1::2", "1:::2", "::1.2.3", "::1.2.3.4.5",
+		"::256.1.1.1", "::01.2.3.4", "::1.2.3.04", "::1.2.3.4:5", "1.2.3.4::", "1:2:3:4:5:6:7:1.2.3.4", "1:2:3:4:5:6:7:8:1.2.3.4", "::1.2.3.", "::.1.2.3", "::1..2.3",
+		"::1.2.3.4.", "::a.2.3.4", "::1.2.3.a", "::1%", "%lo", "%", "::%", "-::1", "+1::", "0x1::", "1::-2", "::1,", "::1;", "::ffff", ":ffff::", "1:2:3:4:5:6:7:",
+		"1:2:3:4:5:6:7:8:", ":1:2:3:4:5:6:7:8", "::1\x01", "\x7f::1", ":: 1", " ::1", "::1 ", "::1\t", "fe80::1%l o", "fe80::1% lo", "fe80::1%lo\x1f", "\xc3\xa9::1",
+		"::1\xff", "::1%\xc3\xa9", "[::1", "[::1]", "::1[", "fe80::1%[lo", "1:2:3:4:5:6:7::8", "::1:2:3:4:5:6:7", "1:2:3:4:5:6::", "::2:3:4:5:6:7:8:9",
+		// IPvFuture
+		"v1.x", "V1.X", "vF.a:b", "v1.!$&'()*+,;=", "v1f.~", "v", "v1", "v1.", "v.x", "vg.x", "v1.x y", "v1.x\x01", "v1.a%41", "v1.x]" };
+	static const char *const schemes[] = { "tcp", "http", "tls+tcp6" };
+	static const char *const ports[] = { "", ":80", ":" };
+	static const char *const tails[] = { "", "/p" };
+	static const char *const uis[] = { "", "u@" };
+	for (size_t l = 0; l < sizeof(lits) / sizeof(lits[0]); l++)
+		for (int k = 0; k < 36; k++) {
+			if (!e_take()) continue;
+			char full[200];
+			snprintf(full, sizeof(full), "%s://%s[%s]%s%s", schemes[k % 3], uis[(k / 3) & 1], lits[l], ports[(k / 6) % 3], tails[k / 18]);
+			vf_case_begin(e_idx - 1, "literal %zu: %s", l, esc(full));
+			bool acc = run_case(full, "literal", NULL);
+			vf_class("literal|%zu|port%d|%s|%s", l, (k / 6) % 3, acc ? "acc" : "rej", R.accept ? "ref-ok" : R.reason);
+			vf_stat("literals", 1);
+		}
+}
+
+// Inputs far above MAXIN (audit r2 gap 3): "whatever its length".  The
+// reference parser works in fixed arrays, so these cases carry their expected
+// result by construction: components, the formatted string, the verdict.
+typedef struct {
+	bool        accept;
+	const char *scheme, *host, *path, *query, *frag; // host NULL: host-less scheme
+	uint32_t    port;
+	char       *canon; // expected nng_url_sprintf output
+} hexp;
+
+static const char *
+huge_diff(const nng_url *u, const hexp *e, bool own)
+{
+	const char *got[4] = { nng_url_hostname(u), nng_url_path(u), nng_url_query(u), nng_url_fragment(u) };
+	const char *want[4] = { e->host, e->path, e->query, e->frag };
+	static const char *const cn[4] = { "hostname", "path", "query", "fragment" };
+	if (nng_url_scheme(u) == NULL || strcmp(nng_url_scheme(u), e->scheme) != 0) return "scheme";
+	if (nng_url_port(u) != e->port) return "port";
+	for (int i = 0; i < 4; i++) {
+		if ((got[i] != NULL) != (want[i] != NULL)) return cn[i];
+		if (got[i] == NULL) continue;
+		if (own && !in_own_storage(u, got[i])) return "storage";
+		if (strcmp(got[i], want[i]) != 0) return cn[i];
+	}
+	return NULL;
+}
+
+static long n_huge, n_huge_acc, n_huge_rej, n_huge_max;
+
+static void
+huge_case(const char *input, const hexp *e, const char *shape)
+{
+	char     disc[96];
+	nng_url *u = NULL, *u2 = NULL, *c = NULL;
+	size_t   len = strlen(input);
+	n_huge++;
+	n_cases++;
+	if ((long) len > n_huge_max) n_huge_max = (long) len;
+	int rv = nng_url_parse(&u, input);
+	if (rv != 0) {
+		n_reject++;
+		n_huge_rej++;
+		vf_class("huge|%s|rej|rv=%d|%s", shape, rv, e->accept ? "UNEXPECTED" : "expected");
+		if (e->accept) { // over-rejection: not a violation, but the verdict would be vacuous
+			n_overstrict++;
+			n_overstrict_unexplained++;
+			vf_sample("{\"overstrict_rejected_huge\":\"%s\",\"len\":%zu,\"rv\":%d}", shape, len, rv);
+		}
+		return;
+	}
+	n_accept++;
+	n_huge_acc++;
+	n_heap_urls++;
+	vf_class("huge|%s|acc|%s", shape, len >= 65536 ? ">=64K" : "<64K");
+	if (!e->accept) {
+		n_strict_fired++;
+		viol("strict", "host-too-long", input, "accepted a %zu byte input (%s)", len, shape);
+		nng_url_free(u);
+		return;
+	}
+	const char *d;
+	n_storage++;
+	if ((d = huge_diff(u, e, true)) != NULL) {
+		snprintf(disc, sizeof(disc), "%s-mismatch", d);
+		viol(!strcmp(d, "storage") ? "storage/string-outside-buffer" : "component", !strcmp(d, "storage") ? "huge" : disc, input,
+		    "%zu byte input (%s): %s differs from the expected component", len, shape, d);
+		nng_url_free(u);
+		return;
+	}
+	// format: size query, exact-size block, content
+	size_t want = strlen(e->canon);
+	int    n = nng_url_sprintf(NULL, 0, u);
+	if (n < 0 || (size_t) n != want) {
+		viol("sprintf/length", NULL, input, "%zu byte input (%s): size query returned %d, expected %zu", len, shape, n, want);
+	} else {
+		char *buf = malloc(want + 1);
+		memset(buf, 0x7e, want + 1);
+		int n2 = nng_url_sprintf(buf, want + 1, u);
+		n_round++;
+		if (n2 != n || memchr(buf, 0, want + 1) == NULL || strcmp(buf, e->canon) != 0) {
+			viol("roundtrip", "formatted-differs", input, "%zu byte input (%s): formatting returned %d and not the expected string", len, shape, n2);
+		} else if ((rv = nng_url_parse(&u2, buf)) != 0) {
+			viol("roundtrip/reparse-rejected", "other", input, "%zu byte input (%s): formatted URL rejected with %d", len, shape, rv);
+		} else {
+			if ((d = huge_diff(u2, e, true)) != NULL) {
+				snprintf(disc, sizeof(disc), "%s-differs", d);
+				viol("roundtrip", disc, input, "%zu byte input (%s): formatted URL parses with a different %s", len, shape, d);
+			}
+			nng_url_free(u2);
+		}
+		size_t k = want / 2 + 1; // truncating call
+		char  *tb = malloc(k);
+		memset(tb, 0x7e, k);
+		(void) nng_url_sprintf(tb, k, u);
+		if (memchr(tb, 0, k) == NULL) viol("sprintf/unterminated", NULL, input, "buffer of %zu bytes for a %zu byte URL not NUL-terminated", k, want);
+		n_trunc++;
+		free(tb);
+		free(buf);
+	}
+	int cls = (e->host == NULL ? 2 : 0) | 1;
+	if (quarantine[cls]) {
+		n_clone_skip++;
+		nng_url_free(u);
+		return;
+	}
+	rv = nng_url_clone(&c, u);
+	n_clone++;
+	n_clone_heap++;
+	if (e->host == NULL) n_clone_hostless++;
+	if (rv != 0 || c == NULL) {
+		viol("clone/failed", cls_names[cls], input, "%zu byte input (%s): nng_url_clone returned %d", len, shape, rv);
+		nng_url_free(u);
+		return;
+	}
+	if ((d = huge_diff(c, e, true)) != NULL) {
+		if (!strcmp(d, "storage")) snprintf(disc, sizeof(disc), "shares-storage/%s", cls_names[cls]);
+		else snprintf(disc, sizeof(disc), "%s-differs/%s", d, cls_names[cls]);
+		viol("clone", disc, input, "%zu byte input (%s): clone differs in %s", len, shape, d);
+		nng_url_free(c);
+		nng_url_free(u);
+		return;
+	}
+	if (len & 1) {
+		n_free_src_first++;
+		nng_url_free(u);
+		if ((d = huge_diff(c, e, true)) != NULL) {
+			snprintf(disc, sizeof(disc), "changed-after-source-freed/%s", cls_names[cls]);
+			viol("clone", disc, input, "%zu byte input (%s): %s", len, shape, d);
+		}
+		nng_url_free(c);
+	} else {
+		n_free_clone_first++;
+		nng_url_free(c);
+		if ((d = huge_diff(u, e, true)) != NULL) {
+			snprintf(disc, sizeof(disc), "source-changed-after-clone-freed/%s", cls_names[cls]);
+			viol("clone", disc, input, "%zu byte input (%s): %s", len, shape, d);
+		}
+		nng_url_free(u);
+	}
+}
+
+static char *
+rep(const char *unit, size_t count, const char *head, const char *tail)
+{
+	size_t ul = strlen(unit), hl = strlen(head), tl = strlen(tail);
+	char  *r = malloc(hl + ul * count + tl + 1), *p = r;
+	memcpy(p, head, hl);
+	p += hl;
+	for (size_t i = 0; i < count; i++, p += ul) memcpy(p, unit, ul);
+	memcpy(p, tail, tl + 1);
+	return r;
+}
+
+static void
+enum_huge(void)
+{
+	static const size_t Ls[] = { 4096, 65535, 65536, 65537, 1u << 20 };
+	static const char *const sn[] = { "path-a", "dot-segments", "query", "hostless", "host255-long-path", "host256-long-path", "escapes", "segments", "fragment", "dup-slashes" };
+	char h255[260], h256[260];
+	memset(h255, 'h', 255);
+	h255[255] = 0;
+	memset(h256, 'h', 256);
+	h256[256] = 0;
+	for (size_t li = 0; li < sizeof(Ls) / sizeof(Ls[0]); li++)
+		for (int sh = 0; sh < 10; sh++) {
+			if (!e_take()) continue;
+			size_t L = Ls[li];
+			hexp   e = { .accept = true, .scheme = "http", .host = "h", .port = 80 };
+			char  *in = NULL, *a = NULL, *b = NULL, tmp[300];
+			switch (sh) {
+			case 0: // total length exactly L
+				in = rep("a", L - 9, "http://h/", "");
+				e.path = in + 8;
+				e.canon = strdup(in);
+				break;
+			case 1: // more than 64K segments removed again
+				in = rep("/a/..", L / 5, "http://H", "/z");
+				e.path = "/z";
+				e.canon = strdup("http://h/z");
+				break;
+			case 2:
+				in = rep("q", L, "ws://h/p?", "");
+				e.scheme = "ws";
+				e.path = "/p";
+				e.query = in + 9;
+				e.canon = strdup(in);
+				break;
+			case 3:
+				in = rep("i", L - 9, "inproc://", "");
+				e.scheme = "inproc";
+				e.host = NULL;
+				e.port = 0;
+				e.path = in + 9;
+				e.canon = strdup(in);
+				break;
+			case 4:
+			case 5:
+				snprintf(tmp, sizeof(tmp), "tcp://%s:7/", sh == 4 ? h255 : h256);
+				in = rep("b", L, tmp, "");
+				e.accept = sh == 4;
+				e.scheme = "tcp";
+				e.host = h255;
+				e.port = 7;
+				e.path = strchr(in + 6, '/');
+				e.canon = strdup(in);
+				break;
+			case 6: // every escape decoded: the output is a third of the input
+				in = rep("%41", L / 3, "http://h/", "");
+				a = rep("A", L / 3, "/", "");
+				e.path = a;
+				e.canon = b = rep("A", L / 3, "http://h/", "");
+				b = NULL;
+				break;
+			case 7: // more than 255 / 64K kept segments
+				in = rep("/s", L / 2, "http://h:8080", "");
+				e.port = 8080;
+				e.path = in + 13;
+				e.canon = strdup(in);
+				break;
+			case 8:
+				in = rep("f", L, "wss://h:443#", "");
+				e.scheme = "wss";
+				e.port = 443;
+				e.path = "";
+				e.frag = in + 12;
+				e.canon = rep("f", L, "wss://h#", "");
+				break;
+			default: // L slashes collapse into one
+				in = rep("/", L, "http://h", "x");
+				e.path = "/x";
+				e.canon = strdup("http://h/x");
+				break;
+			}
+			vf_case_begin(e_idx - 1, "huge %s L=%zu", sn[sh], L);
+			vf_watchdog(600);
+			{ // exact-size copy so that ASan sees an over-read
+				char *x = strdup(in);
+				// pointers of e into `in` stay valid: in is kept until the end of the case
+				huge_case(x, &e, sn[sh]);
+				free(x);
+			}
+			vf_stat("length_huge", 1);
+			free(e.canon);
+			free(a);
+			free(b);
+			free(in);
+		}
 }
 
 // Started listeners: the URL lives inside the listener object, is bound
@@ -1647,6 +2178,35 @@ static const char *const port_bad[] = { "65536", "99999", "100000", "4294967296"
 static const char *const port_signed[] = { "+80", " 80", "-0", "+0", "\t443", "+65535", " +7" };
 static const char *const port_svc[] = { "http", "https", "ssh", "domain", "HTTP", "Ssh", "nosuchsvc", "telnet", "ftp" };
 
+// random bracketed literal near the IPv6 grammar: groups, "::", a dotted
+// quad, a zone, and the usual ways to get them wrong
+static void
+gen_v6(vf_rng *r, sb *b)
+{
+	int  groups = (int) vf_below(r, 10), gap = vf_chance(r, 3, 5) ? (int) vf_below(r, (uint32_t) groups + 1) : -1;
+	bool v4 = vf_chance(r, 1, 5);
+	sb_addc(b, '[');
+	for (int i = 0; i < groups; i++) {
+		if (i == gap) sb_add(b, i == 0 ? "::" : ":");
+		else if (i > 0 && !(v4 && i == groups - 1 && vf_chance(r, 1, 20))) sb_addc(b, ':');
+		if (v4 && i == groups - 1) {
+			char t[40];
+			snprintf(t, sizeof(t), vf_chance(r, 1, 10) ? "%u.%u.%u" : vf_chance(r, 1, 10) ? "%u.%u.%u.%u.1" : vf_chance(r, 1, 10) ? "0%u.%u.%u.%u" : "%u.%u.%u.%u",
+			    vf_below(r, 256), vf_below(r, vf_chance(r, 1, 10) ? 300 : 256), vf_below(r, 256), vf_below(r, 256));
+			sb_add(b, t);
+		} else {
+			int nd = vf_chance(r, 1, 25) ? (int) vf_below(r, 7) : 1 + (int) vf_below(r, 4);
+			for (int k = 0; k < nd; k++) sb_addc(b, vf_chance(r, 1, 60) ? "gG-. x"[vf_below(r, 6)] : "0123456789abcdefABCDEF"[vf_below(r, 22)]);
+		}
+	}
+	if (gap == groups) sb_add(b, groups == 0 ? "::" : vf_chance(r, 1, 8) ? ":" : "::");
+	if (vf_chance(r, 1, 5)) {
+		static const char *const zones[] = { "%lo", "%25eth0", "%1", "%", "%e th", "%e\x01", "%[x", "%\xc3\xa9", "%a.b_c-d~" };
+		sb_add(b, PICK(r, zones));
+	}
+	if (!vf_chance(r, 1, 30)) sb_addc(b, ']');
+}
+
 static void
 gen_authority(vf_rng *r, sb *b)
 {
@@ -1671,8 +2231,10 @@ gen_authority(vf_rng *r, sb *b)
 		char t[32];
 		snprintf(t, sizeof(t), "%u.%u.%u.%u", vf_below(r, 256), vf_below(r, 256), vf_below(r, 256), vf_below(r, 256));
 		sb_add(b, t);
-	} else if (k < 85) {
+	} else if (k < 74) {
 		sb_add(b, PICK(r, v6));
+	} else if (k < 85) {
+		gen_v6(r, b);
 	} else if (k < 94) {
 		sb_add(b, PICK(r, odd_hosts));
 	} else { // long host around the 256 limit
@@ -1845,6 +2407,7 @@ gen_url(vf_rng *r, sb *b)
 static void
 run_grammar(void)
 {
+	long   n_gram = 0;
 	vf_rng r;
 	sb     u;
 	for (long c = 0; c < vf_cases; c++) {
@@ -1855,7 +2418,9 @@ run_grammar(void)
 		bool acc = run_case(u.s, "gram", NULL);
 		if ((c & 0x3fff) == 7) vf_sample("{\"input\":\"%s\",\"accepted\":%s}", esc(u.s), acc ? "true" : "false");
 		if ((c & 0x3ff) == 0) vf_watchdog(120);
+		n_gram++;
 	}
+	vf_stat("gram_cases", n_gram);
 }
 
 static void
@@ -1887,6 +2452,20 @@ report_stats(void)
 		snprintf(k, sizeof(k), "utf8_enum_valid_%s_accepted", un[i]);
 		vf_stat(k, n_utf8_valid_acc[i]);
 	}
+	for (int i = 1; i < N_UP; i++) {
+		char k[80];
+		snprintf(k, sizeof(k), "utf8_pos_%s", up_names[i]);
+		vf_stat(k, n_up_cases[i]);
+		if (i == UP_HOSTLESS || i == UP_SPLIT) continue;
+		snprintf(k, sizeof(k), "utf8_pos_%s_valid", up_names[i]);
+		vf_stat(k, n_up_valid[i]);
+		snprintf(k, sizeof(k), "utf8_pos_%s_valid_accepted", up_names[i]);
+		vf_stat(k, n_up_valid_acc[i]);
+	}
+	vf_stat("utf8_pos_hostless_accepted", n_up_hostless_acc);
+	vf_stat("length_huge_accepted", n_huge_acc);
+	vf_stat("length_huge_rejected", n_huge_rej);
+	vf_stat_max("length_huge_max_bytes", n_huge_max);
 	vf_stat("listen_tried", n_listen_try);
 	vf_stat("listen_started_compared", n_listen_ok);
 	vf_stat("listen_started_heap", n_listen_heap);
@@ -1894,6 +2473,23 @@ report_stats(void)
 	vf_stat("listen_port_resolved", n_listen_port);
 	vf_stat("listen_dialer_from_listener", n_listen_dialer);
 	vf_stat("overstrict_unexplained", n_overstrict_unexplained);
+	vf_stat("judged_authority_blank_or_control", n_judged_ctl);
+	vf_stat("judged_bracket_not_an_address", n_judged_v6);
+	vf_stat("judged_bracket_valid_address", n_judged_v6_valid);
+	vf_stat("judged_bracket_valid_address_accepted", n_judged_v6_valid_acc);
+	vf_stat("host_escape_judged", n_host_esc_judged);
+	vf_stat("host_escape_unreserved_judged", n_host_esc_unres);
+	for (int i = 0; i < N_OPEN; i++) {
+		char k[80];
+		// base_*: exact in mode enum (pinned by the spec); open_*: the same classes in the sampled modes
+		const char *pre = !strncmp(vf_mode, "enum", 4) ? "base" : "open";
+		snprintf(k, sizeof(k), "%s_%s_driven", pre, op_names[i]);
+		vf_stat(k, n_base_driven[i]);
+		snprintf(k, sizeof(k), "%s_%s_accepted", pre, op_names[i]);
+		vf_stat(k, n_base_acc[i]);
+		snprintf(k, sizeof(k), "%s_%s_rejected", pre, op_names[i]);
+		vf_stat(k, n_base_rej[i]);
+	}
 	vf_stat("storage_checked", n_storage);
 	vf_stat("endpoint_tried", n_ep_try);
 	vf_stat("endpoint_compared", n_ep_ok);
@@ -1950,13 +2546,19 @@ main(int argc, char **argv)
 			vf_case_begin(0, "literal: %s", esc(vf_mode + 4));
 			bool acc = run_case(vf_mode + 4, "lit", NULL);
 			fprintf(stderr, "nng %s; reference %s %s\n", acc ? "accepts" : "rejects", R.accept ? "accepts" : "rejects", R.reason);
-		} else if (!strcmp(vf_mode, "enum")) {
-			enum_corpus();
-			enum_listen();
-			enum_schemes();
-			enum_authority();
-			enum_lengths();
-			enum_utf8();
+		} else if (!strncmp(vf_mode, "enum", 4)) { // "enum", or "enum:<part>[,<part>]" (debugging aid)
+#define PART(name) (vf_mode[4] != ':' || strstr(vf_mode + 5, name) != NULL)
+			if (PART("corpus")) enum_corpus();
+			if (PART("listen")) enum_listen();
+			if (PART("schemes")) enum_schemes();
+			if (PART("authority")) enum_authority();
+			if (PART("hostbytes")) enum_hostbytes();
+			if (PART("literals")) enum_literals();
+			if (PART("lengths")) enum_lengths();
+			if (PART("huge")) enum_huge();
+			if (PART("positions")) enum_utf8_positions();
+			if (PART("utf8")) enum_utf8();
+#undef PART
 		} else {
 			run_grammar();
 		}
